@@ -279,7 +279,11 @@ class FileProxy(object):
         return self
 
     def __exit__(self, *a):
-        self.close()
+        fr = sys._getframe(1)
+        self._real.close()
+        self.lib_closed = True
+        if is_lib(fr):
+            REC.hit(CODE["close"], fr)
 
 
 def _wrap(orig, code, post=False):
@@ -322,6 +326,7 @@ class Instr(object):
         P = self.patch
         P(tables, "open_file", _wrap(tables.open_file, CODE["open"]))
         P(tables.File, "close", _wrap(tables.File.close, CODE["close"], post=True))
+        P(tables.File, "__exit__", _wrap(tables.File.__exit__, CODE["close"], post=True))   # `with open_file(..)`
         for n in ("create_group",):
             P(tables.File, n, _wrap(getattr(tables.File, n), CODE["createGroup"]))
         for n in ("create_array", "create_carray", "create_earray", "create_table"):
@@ -846,6 +851,7 @@ def observe(kind, obj, path, fault_at=None, fault_kind=1):
 # ============================================================================ cases
 def make_input(case, root):
     """-> (kind, object to pass, path)"""
+    import neuroml.loaders  # noqa: F401  (exportHdf5 uses neuroml.utils without importing it)
     kind = case["kind"]
     if kind == "xw":
         return kind, build_doc(case["spec"]), os.path.join(root, "out.nml")
@@ -1023,6 +1029,10 @@ def cure(case, obj):
                     e.electrical_connection_instances or e.electrical_connection_instance_ws]
             if len(keep) != len(net.electrical_projections):
                 net.electrical_projections = keep
+                done = True
+            keep = [e for e in net.input_lists if e.input or e.input_ws]    # zero rows: create_carray refuses
+            if len(keep) != len(net.input_lists):
+                net.input_lists = keep
                 done = True
             keep = [e for e in net.continuous_projections if e.continuous_connections or
                     e.continuous_connection_instances or e.continuous_connection_instance_ws]
@@ -1343,6 +1353,7 @@ def gen_cases(ctx):
         for net in spec["networks"]:
             net.pop("synconn", None)
             net.pop("expinputs", None)
+            net["ilists"] = [e for e in net.get("ilists", []) if e["inputs"] or e["inputs_w"]]
             net["eprojs"] = [e for e in net.get("eprojs", []) if len(e) > 3]
             net["cprojs"] = [e for e in net.get("cprojs", []) if len(e) > 3]
         cases.append({"kind": rng.choice(["hr", "hr", "hro"]), "spec": spec, "damage": rng.choice(DAMAGE)})
